@@ -819,6 +819,21 @@ func (d *protoDom) call(st *sState, call *ssa.Call, name string, args []sVal) (b
 		}
 		set(d.newObj(st, "point", nil))
 		return true, nil
+	case "sm2/internal/fiat.(*SM2Element).GetRaw", "sm2/internal/fiat.(*SM2ScalarElement).GetRaw":
+		// the limbs of the element: the element itself, for whoever builds something from them
+		if h := d.obj(st, args[0]); h == nil || h.t == nil {
+			return fail("raw limbs of an unknown element")
+		}
+		set(args[0])
+		return true, nil
+	case "sm2/internal.NewFromXY":
+		// the affine point (x, y) with Z = 1, from the limbs of two field elements
+		x, y := d.obj(st, args[0]), d.obj(st, args[1])
+		if x == nil || y == nil || x.t == nil || y.t == nil || x.kind != "elem" || y.kind != "elem" {
+			return fail("NewFromXY of limbs that are not those of two known field elements")
+		}
+		set(d.newObj(st, "point", pOp("xy", x.t, y.t)))
+		return true, nil
 	case "sm2/internal.(*SM2Point).SetBytes":
 		b, ok := bytesArg(1)
 		if !ok {
@@ -1263,6 +1278,8 @@ func finitePoint(st *sState, P *pt) bool {
 	switch P.op {
 	case "decode":
 		return pLen(P.args[0]) == 65 || P.args[0].op == "cat"
+	case "xy":
+		return true // an affine point given by its coordinates (Z = 1)
 	case "base":
 		return proveP(st.pfacts, P.args[0], token.GEQ, pC(1)) && proveP(st.pfacts, P.args[0], token.LSS, pSym("N"))
 	}
